@@ -340,6 +340,9 @@ def _short(x):
     return s if len(s) < 300 else s[:300] + '...'
 
 
+FILE_KINDS = ('p8', 'p8_map_first', 'p8_no_map', 'p8_no_gff', 'png', 'p8_short_gfx', 'p8_no_gfx', 'p8_short_map_sfx')
+
+
 def game_from_file(rng, regions):
     """The same cart obtained by loading a reference-written file: .p8 (also with sections in another order or with the map
     section left out, as newer PICO-8 versions do for empty sections) or .p8.png.  -> (game, memory it must hold, source tag)"""
@@ -347,7 +350,7 @@ def game_from_file(rng, regions):
     from pico8.game.formatter.p8 import P8Formatter
     from pico8.game.formatter.p8png import P8PNGFormatter
     from .. import refcodec as rc
-    kind = rng.choice(('p8', 'p8_map_first', 'p8_no_map', 'p8_no_gff', 'png'))
+    kind = rng.choice(FILE_KINDS)
     regions = dict(regions)
     if kind == 'png':
         data = rc.write_p8png(regions, rc.raw_code_area(b'x=1'), 8)
@@ -360,6 +363,23 @@ def game_from_file(rng, regions):
     elif kind == 'p8_no_map':
         regions['map'] = bytes(4096)       # an omitted section reads as the empty default (all zero for the map)
         data = rc.write_p8(regions, b'x=1\n', version=8, omit=('map',))
+    elif kind == 'p8_short_gfx':
+        # as current PICO-8 saves a cart whose sprite sheet is used only at the top: the section ends after its last used row (the
+        # rest, the half shared with the map's rows 32-63 included, is zero)
+        keep = rng.choice((1, 8, 63, 64, 65, 100)) * 64
+        regions['gfx'] = bytes(regions['gfx'][:keep]) + bytes(8192 - keep)
+        data = rc.write_p8(regions, b'x=1\n', version=8, trim=('gfx',))
+    elif kind == 'p8_no_gfx':
+        regions['gfx'] = bytes(8192)
+        data = rc.write_p8(regions, b'x=1\n', version=8, omit=('gfx',))
+    elif kind == 'p8_short_map_sfx':
+        keep = rng.choice((1, 5, 31)) * 128
+        regions['map'] = bytes(regions['map'][:keep]) + bytes(4096 - keep)
+        from pico8.game.game import Game
+        empty = carts.game_regions(Game.make_empty_game())
+        k2 = rng.choice((1, 10, 63)) * 68
+        regions['sfx'] = bytes(regions['sfx'][:k2]) + bytes(empty['sfx'][k2:])
+        data = rc.write_p8(regions, b'x=1\n', version=8, trim=('map', 'sfx'))
     else:
         regions['gff'] = bytes(256)
         data = rc.write_p8(regions, b'x=1\n', version=8, omit=('gff',))
@@ -472,7 +492,7 @@ def gates(m, tier):
     for k in ('sprite_transparent', 'sprite_ragged', 'rect_spans_shared_boundary', 'cell_row_31', 'cell_row_32', 'cell_row_63'):
         if f.get(k, 0) < 10:
             missed.append('%s seen %d times' % (k, f.get(k, 0)))
-    for k in ('p8', 'p8_map_first', 'p8_no_map', 'p8_no_gff', 'png'):
+    for k in FILE_KINDS:
         if f.get('game_loaded_from:' + k, 0) < 3:
             missed.append('histories on a game loaded from %s: %d' % (k, f.get('game_loaded_from:' + k, 0)))
     for k in ('keywords', 'positional', 'optional_argument_left_out', 'one_of_two_optional_arguments_given'):
